@@ -32,6 +32,8 @@ fn bounds(tier: Tier, group: usize) -> Bounds {
     match (tier, group) {
         (Tier::Quick, 0) => Bounds { deviations: 1, depth: 5 },
         (Tier::Quick, 3) => Bounds { deviations: 1, depth: 4 },
+        (Tier::Quick, 4) => Bounds { deviations: 1, depth: 3 },
+        (Tier::Thorough, 4) => Bounds { deviations: 2, depth: 4 },
         (Tier::Thorough, 3) => Bounds { deviations: 2, depth: 5 },
         (Tier::Quick, _) => Bounds { deviations: 1, depth: 3 },
         (Tier::Thorough, 0) => Bounds { deviations: 2, depth: 6 },
@@ -40,7 +42,7 @@ fn bounds(tier: Tier, group: usize) -> Bounds {
 }
 
 /// (group, model): group 0 = single constraint models, 1 = two-constraint models,
-/// 2 = cumulative variants, 3 = two-profile cumulative sets
+/// 2 = cumulative variants, 3 = two-profile cumulative sets, 4 = long-profile cumulative sets
 fn models(tier: Tier) -> Vec<(usize, Model)> {
     let mut v: Vec<(usize, Model)> = vec![];
     match tier {
@@ -75,9 +77,14 @@ fn models(tier: Tier) -> Vec<(usize, Model)> {
     v.extend(crate::props::c09::reified_models(tier).into_iter().map(|m| (1, m)));
     v.extend(crate::props::c09::self_referential_models().into_iter().map(|m| (1, m)));
     // cumulative: several profiles propagating on one task in a single invocation
-    for ts in c08::profile_sets() {
+    let long = c08::long_profile_sets().len();
+    let all = c08::profile_sets();
+    for (k, ts) in all.iter().enumerate() {
+        if tier.quick() && k + long >= all.len() + 2 {
+            continue;
+        }
         for o in CumOpts::all() {
-            v.push((3, ts.model(o)));
+            v.push((if k + long >= all.len() { 4 } else { 3 }, ts.model(o)));
         }
     }
     v
